@@ -91,6 +91,28 @@ func (s *scopeGen) function(lvl int, tag string) (ast.FuncLit, *fnInfo) {
 				ast.For{Vars: []string{n}, Iters: []ast.Node{call("fromto", ast.IntLit{V: 0}, ast.IntLit{V: int64(r.Range(1, 3))})}, Body: ast.Assign{Name: acc, Value: ast.Binary{Op: "+", L: name(acc), R: name(n)}}})
 		}
 	}
+	if r.Chance(1, 2) {
+		// a zipped loop whose variables mix names that already are locals here with new ones, in both orders
+		var known, fresh []string
+		for _, n := range s.names {
+			if roles[n] <= 3 {
+				known = append(known, n)
+			}
+		}
+		fresh = append(fresh, s.fresh("zv"))
+		if len(known) > 0 {
+			vars := []string{known[r.Intn(len(known))], fresh[0]}
+			if r.Chance(1, 3) {
+				vars[0], vars[1] = vars[1], vars[0]
+			}
+			after := s.fresh("zw")
+			acc := s.fresh("zc")
+			ss = append(ss, ast.Assign{Name: acc, Value: ast.StrLit{V: ""}},
+				ast.For{Vars: vars, Iters: []ast.Node{call("fromto", ast.IntLit{V: 0}, ast.IntLit{V: int64(r.Range(1, 3))}), call("elems", ast.StrLit{V: "pqr"})},
+					Body: ast.Block{Stmts: []ast.Node{ast.Assign{Name: after, Value: ast.IntLit{V: 100}}, ast.Assign{Name: acc, Value: ast.Binary{Op: "+", L: name(acc), R: ast.Binary{Op: "+", L: call("toa", name(vars[0])), R: call("toa", name(vars[1]))}}}}}},
+				call("write", ast.Binary{Op: "+", L: ast.StrLit{V: " zip " + tag + " "}, R: ast.Binary{Op: "+", L: name(acc), R: call("toa", name(after))}}))
+		}
+	}
 	ss = append(ss, call("write", ast.Binary{Op: "+", L: ast.StrLit{V: " mid " + tag + " "}, R: call("toa", s.snapshot())}))
 	var result []ast.Node
 	if lvl < 3 && r.Chance(3, 4) {
